@@ -94,6 +94,10 @@ func ParseName(name string) (NameInfo, error) {
 		return empty, fmt.Errorf("timestamp parse error: %s", err)
 	}
 	ni.Timestamp = ts
+	if c := ni.TimestampString[dotIndex+1]; c < '0' || c > '9' {
+		// time.Parse accepts a sign in front of the fraction: not a name that NameTimestamp produces
+		return empty, fmt.Errorf("invalid timestamp format: %s in %s", ni.TimestampString, name)
+	}
 	return ni, nil
 }
 
